@@ -77,6 +77,89 @@ def observe(handler, path):
             ([x for x in found if x != node] if what == "file" else found)}
 
 
+def race_runs(rep, rnd, count):
+    """The tree changes WHILE a request is being served: after the k-th file-system call of the handler (any pathlib.Path
+    method, os.stat / open behind them) a link inside the root is atomically re-pointed from an inside target to an
+    outside one (rename of a fresh symlink over it).  Whatever the handler answers, a success response must not carry
+    the outside file's content / the outside directory's listing.  (Beyond the property's own quantifier - it ranges over
+    layouts, not over schedules of change - but the clause "a success response carries ... a file whose fully resolved
+    location lies inside the root" is evaluated the same way.)"""
+    import pathlib
+    import shutil
+    import tempfile
+    top = tempfile.mkdtemp(prefix="vf-c02-race-")
+    n = 0
+    try:
+        root = os.path.join(top, "root")
+        out = os.path.join(top, "out")
+        os.makedirs(os.path.join(root, "sub"))
+        os.makedirs(os.path.join(out, "osub"))
+        files = {os.path.join(root, "inside.gmi"): "INSIDE-FILE\n", os.path.join(root, "sub", "index.gmi"): "INSIDE-INDEX\n",
+                 os.path.join(root, "sub", "page.gmi"): "INSIDE-PAGE\n",
+                 os.path.join(out, "secret.gmi"): "OUTSIDE-SECRET-FILE\n", os.path.join(out, "osub", "index.gmi"): "OUTSIDE-SECRET-INDEX\n",
+                 os.path.join(out, "osub", "page.gmi"): "OUTSIDE-SECRET-PAGE\n", os.path.join(out, "osub", "only-outside-name.gmi"): "OUTSIDE-SECRET-3\n"}
+        for p_, text in files.items():
+            with open(p_, "w") as f:
+                f.write(text)
+        scenarios = [("flink", os.path.join(root, "inside.gmi"), os.path.join(out, "secret.gmi"), ["/flink"]),
+                     ("dlink", os.path.join(root, "sub"), os.path.join(out, "osub"), ["/dlink", "/dlink/", "/dlink/page.gmi", "/dlink/index.gmi"])]
+        methods = ["resolve", "is_dir", "is_file", "exists", "stat", "read_text", "read_bytes", "open", "iterdir", "is_symlink", "lstat", "glob"]
+        for _ in range(count):
+            name, inside, outside, paths = rnd.choice(scenarios)
+            path = rnd.choice(paths)
+            listing = rnd.random() < 0.5
+            for k in range(0, 14):
+                link = os.path.join(root, name)
+                if os.path.lexists(link):
+                    os.unlink(link)
+                os.symlink(inside, link)
+                handler = StaticFileHandler(root, enable_directory_listing=listing)
+                state = {"n": 0, "flipped": False}
+
+                def flip():
+                    tmp = link + ".new"
+                    os.symlink(outside, tmp)
+                    os.replace(tmp, link)
+                    state["flipped"] = True
+                saved = {}
+
+                def wrap(m):
+                    orig = getattr(pathlib.Path, m)
+
+                    def w(self, *a, **kw):
+                        r = orig(self, *a, **kw)
+                        if not state["flipped"]:
+                            state["n"] += 1
+                            if state["n"] > k:
+                                flip()
+                        return r
+                    saved[m] = orig
+                    setattr(pathlib.Path, m, w)
+                for m in methods:
+                    if hasattr(pathlib.Path, m):
+                        wrap(m)
+                try:
+                    try:
+                        resp = handler.handle(make_request(path))
+                        st, meta, body = resp.status, resp.meta, resp.body
+                    except Exception as e:  # noqa: BLE001
+                        st, meta, body = 40, str(e), None
+                finally:
+                    for m, orig in saved.items():
+                        setattr(pathlib.Path, m, orig)
+                n += 1
+                data = (meta or "") + "\n" + (body if isinstance(body, str) else (body or b"").decode("utf-8", "replace"))
+                if "OUTSIDE-SECRET" in data or "only-outside-name" in data:
+                    rep.violation({"formula": "Safe", "race": True, "scenario": name},
+                                  "Safe falsified: link %s re-pointed from %s to %s after file-system call #%d of the request %r (listing=%s): answered %d with %r" % (
+                                      name, os.path.relpath(inside, top), os.path.relpath(outside, top), k, path, listing, st, data[:120]), None)
+                if not state["flipped"]:
+                    break             # the request makes fewer file-system calls than k: every point has been tried
+    finally:
+        shutil.rmtree(top, ignore_errors=True)
+    rep.add("requests_with_tree_change_in_flight", n)
+
+
 def agrees(obs, m):
     if m["what"] == "error" or m.get("mayfail"):
         if not (20 <= obs["st"] <= 29):
@@ -243,6 +326,7 @@ def main(pid="C02"):
                     rep.violation({"formula": names_[0], "node": c["node"], "what": c["what"]}, "%s falsified: %s" % (names_, desc), c)
                 else:
                     rep.drifted("handler departs from the model, Safe/Reachable hold: " + desc)
+        race_runs(rep, rnd, 400 if thorough else 60)
         rep.set("rule", "TLC-enumerated (tree, path) cases, each materialised on disk and served by the real handler; distinct = "
                 "distinct (slot assignment, listing, token path, trailing); plus random byte-level spellings judged by sentinel search")
         rep.set("exhaustive", True)
